@@ -1,8 +1,10 @@
 import Bt.Algos.Program
 import Bt.Algos.ProgramX
 import Bt.Algos.ProgramS
+import Bt.Driver.ProgramR
 import Bt.Algos.Sched
 import Bt.Driver.Engine
+import Bt.Driver.Select
 /- `wholerun`: a complete (possibly nested) `Backtest.run()` of a program tree, executed by the model from the real
    post-`setup` trees; the answer is the final tree of the backtest followed by those of all shadow copies (preorder). -/
 namespace Bt.Driver
@@ -122,9 +124,28 @@ def pSelStep : P (SelStep Float) := do
     let win ← list (opt (do let a ← nat; let b ← nat; pure (a, b)))
     let n ← pNSpec; let asc ← bool; let aon ← bool
     pure (.momentum win n asc aon)
+  | "W" => do
+    -- SelectWhere: signal columns, per row of the index the signal row (N: date absent; cells N|0|1), include_no_data, include_negative
+    let scols ← list nat
+    let rows ← list (opt (list (opt bool)))
+    let nd ← bool; let neg ← bool
+    pure (.where_ scols rows nd neg)
+  | "N" => do
+    -- SetStat + SelectN: stat columns, per row of the index the stat row at now - lag (N: absent), n, ascending, all_or_none, filter_selected
+    let scols ← list nat
+    let rows ← list (opt (list (opt float)))
+    let n ← pNSpec; let asc ← bool; let aon ← bool; let fs ← bool
+    pure (.statN scols rows n asc aon fs)
+  | "Q" => do let ifNone ← bool; pure (.require ifNone)
+  | "X" => do let ok ← list nat; pure (.regex ok)
+  | "Y" => do
+    let kids ← list (do let k ← nat; let ty ← Sel.pTy; pure (k, ty))
+    let incl ← list Sel.pTy; let excl ← list Sel.pTy
+    pure (.types kids incl excl)
   | t => throw s!"unknown selection step {t}"
 
-/-- a post-processing step: `C s` ScaleWeights, `W l` LimitWeights, `D order glob? per` LimitDeltas, `O n` RebalanceOverTime (last) -/
+/-- a post-processing step: `C s` ScaleWeights, `W l` LimitWeights, `D order glob? per` LimitDeltas, `O n` RebalanceOverTime (last),
+    `K` CloseDead -/
 def pWStep : P (WStep Float) := do
   match (← next) with
   | "C" => do let s ← float; pure (.scale s)
@@ -135,7 +156,20 @@ def pWStep : P (WStep Float) := do
     let per ← list (do let i ← nat; let x ← float; pure (i, x))
     pure (.limitD order glob per)
   | "O" => do let n ← float; pure (.overTime n)
+  | "K" => pure .closeDead
   | t => throw s!"unknown post step {t}"
+
+/-- the weigher of an extended stack: `E` | `S table` | `G rows` = WeighTarget(frame), one entry per row of the index
+    (`N`: the date is not in the frame's index, otherwise the row's non-missing weights) -/
+def pWghX : P (Wgh Float × Option (List (Option (List (Nat × Float))))) := do
+  let i ← get
+  let toks ← read
+  match toks[i]? with
+  | some "G" =>
+    set (i + 1)
+    let rows ← list (opt (list (do let i ← nat; let x ← float; pure (i, x))))
+    pure (.equally, some rows)
+  | _ => do let w ← pWgh; pure (w, none)
 
 /-- the extended stack after its tag: flow, gate, universe, selection steps, weigher, post steps, cash -/
 def pProgX (idx : List Cal.Stamp) : P (Option Float × ProgX Float) := do
@@ -143,14 +177,16 @@ def pProgX (idx : List Cal.Stamp) : P (Option Float × ProgX Float) := do
   let gate ← pGate idx
   let ucols ← list nat
   let sels ← list pSelStep
-  let wgh ← pWgh
+  let (wgh, target) ← pWghX
   let post ← list pWStep
   let cash ← opt float
-  pure (flow, { gate, ucols, sels, wgh, post, cash })
+  pure (flow, { gate, ucols, sels, wgh, post, cash, target })
 
 /-- one strategy's stack (everything of a node up to its children), the tag already read:
     `F` fixed-income, `T` WeighTarget, otherwise (`X`) the extended stack -/
 def pNodeFn (cfg : Cfg Float) (idx : List Cal.Stamp) (tag : String) : P (List Nat → RunFn Float) := do
+  if tag == "B" then   -- blotter-driven node (`Bt/Driver/ProgramR.lean`)
+    return progRunR cfg (← pProgR)
   if tag == "F" then
     -- fixed-income node: gate, specified weights, notional series
     let k ← pPeriodKind
